@@ -65,6 +65,7 @@ class Session:
         """creds: optional (good_token, good_key, bad_token, bad_key) - default fixed test vectors."""
         self.tok_good, self.key_good, self.tok_bad, self.key_bad = creds or (GOOD_TOKEN, GOOD_KEY, BAD_TOKEN, BAD_KEY)
         self.presented_key = self.key_good
+        self.seed = seed if isinstance(seed, int) else 0
         from msmart.lan import LAN
         vloop.install_clock()
         self.loop = vloop.new_loop()
@@ -388,10 +389,19 @@ class Session:
 
     # ---- primitives ----------------------------------------------------------------------------------
     def call_send(self, reply=None):
-        self.presented_key = self.lan.key or self.key_good      # an implicit handshake presents the stored key
+        pk = self.lan.key                                       # an implicit handshake presents the stored key
+        if isinstance(pk, str):
+            try:
+                pk = bytes.fromhex(pk)
+            except ValueError:
+                pk = None
+        self.presented_key = pk if isinstance(pk, (bytes, bytearray)) and len(pk) == 32 else self.key_good
         return self._call("send", lambda: self.lan.send(self.frame, retries=self.retries), "cached", reply)
 
-    def call_auth(self, creds, reply=None, hexform=False, level="lan"):
+    def call_auth(self, creds, reply=None, hexform=None, level="lan"):
+        if hexform is None:
+            # bytes or hex strings (what the cloud, discovery and the command line hand over): the form varies from session to session
+            hexform = [False, "both", False, "token", False, "key"][self.seed % 6] if isinstance(getattr(self, "seed", 0), int) else False
         tok, key = (self.tok_good, self.key_good) if creds == "good" else (self.tok_bad, self.key_bad)
         self.presented_key = key
         if hexform in (True, "both"):
